@@ -32,6 +32,7 @@ SOURCES = {
     'noise+chirp+real': [('noise', 0.0, 1.0), ('chirp', 0.33, -0.02, 0.7, 0.0), ('real',)],
     'chirp+complex': [('chirp', 0.11, 0.0, 1.0, 1.0), ('complex',)],
     'two_noise': [('noise', 0.0, 1.0), ('noise', 1.0, 3.0)],
+    'three_noise': [('noise', 0.0, 1.0), ('noise', 1.0, 3.0), ('noise', -0.5, 0.5)],
     'two_chirps': [('chirp', 0.4, 0.05, 1.0, 0.0), ('chirp', 0.05, -0.01, 2.0, 2.0)],
     # a custom source that plays back a STORED table (returns a view of it), then a chirp: the table belongs to the caller
     'table+chirp': [('table',), ('chirp', 0.21, 0.013, 1.5, 0.3)],
@@ -596,7 +597,7 @@ def run(ctx):
             for asc in (True, False):
                 for src in SOURCES:
                     for seed in (ctx.seed + 5, ctx.seed + 6):
-                        if seed != ctx.seed + 5 and not (T or src in ('noise', 'two_noise')):
+                        if seed != ctx.seed + 5 and not (T or src in ('noise', 'two_noise', 'three_noise')):
                             continue
                         cfgs.append(dict(rate=rate, t_start=t0, asc=asc, sources=src, seed=seed,
                                          fch1=0.0 if asc else rate / 2,
